@@ -2272,6 +2272,9 @@ Box<ITV>::remove_higher_space_dimensions(const dimension_type new_dimension) {
     return;
   }
 
+  // The emptiness of the box must be detected before removing the
+  // intervals: an empty interval could be among those to be removed.
+  (void) is_empty();
   seq.resize(new_dimension);
   PPL_ASSERT(OK());
 }
